@@ -19,7 +19,7 @@ class Triple:
 
 
 def gen_triple(rng, malformed=None, long=False):
-    dt = rng.choice([600, 1200, 1800, 3600, 600, 1200, 1800, 3600, 300, 10800, 86400, 172800])
+    dt = rng.choice([600, 1200, 1800, 3600, 600, 1200, 1800, 3600, 300, 10800, 86400, 172800, 30, 90, 10])
     t0 = (rng.randint(631152000, 1893456000) // dt) * dt
     nr = rng.randint(3, 40) if not long else rng.randint(1200, 2500)
     outage = None
